@@ -5,6 +5,7 @@
   ONLY property theorems and non-vacuity examples live here (lemmas: Lemmas/VisitorExact*.lean).
 -/
 import XsVerif.Lemmas.VisitorExactLang
+import XsVerif.Lemmas.VisitorExactEncode
 
 namespace XsVerif.Props.C01Exact
 open XsVerif XsVerif.CM XsVerif.Wildcard
@@ -66,6 +67,48 @@ theorem visitor_fuel_sufficient_flat_sequence (n : Nat) (p : Particle) (h : Flat
     (childErrors (mkArena n p.flatten) n p.pid w).fuelOut = false :=
   (visitor_exact_flat_sequence n p h w).2
 
+/-! ### strict encode is complete for the content model (all models, all open-content modes) -/
+
+/-- **Strict encode is complete for the content model**: whenever the validator's child loop accepts a
+    child sequence, the encoder's child loop (same ModelVisitor, different loop: groups.py:1146-1181)
+    reports no error for it either — for EVERY model (any nesting, any ranges, wildcards, xs:all),
+    every open-content mode and every sequence.  Converse of `C05.strict_encode_sound`. -/
+theorem strict_encode_complete (A : Arena) (n root : Nat) (w : List QN) (oc : OC)
+    (h : verdict A n root w oc = true) : encodeSilent A n root w oc = true := by
+  unfold verdict childErrors at h
+  simp only at h
+  split at h
+  · simp at h
+  · rename_i hroot
+    simp only [List.isEmpty_iff, List.append_eq_nil_iff] at h
+    obtain ⟨h1, h2⟩ := h
+    unfold encodeSilent emptyChoiceRoot encodeErrors
+    simp only [Bool.and_eq_true, Bool.not_eq_true', List.isEmpty_iff]
+    refine ⟨by simpa using hroot, ?_⟩
+    rw [loop_simulation_conv A oc n root _ _ _ rfl rfl h1]
+    rw [List.append_eq_nil_iff]
+    refine ⟨h1, ?_⟩
+    revert h2
+    split
+    · intro _; rfl
+    · split <;> simp
+
+/-- the two child loops agree on acceptance: strict encode raises for exactly the child sequences the
+    validator rejects (content-model part), for every model and every word -/
+theorem encodeSilent_eq_verdict (A : Arena) (n root : Nat) (w : List QN) (oc : OC) :
+    encodeSilent A n root w oc = verdict A n root w oc := by
+  cases hv : verdict A n root w oc
+  · cases he : encodeSilent A n root w oc
+    · rfl
+    · rw [XsVerif.Props.C05.strict_encode_sound A n root w oc he] at hv; cases hv
+  · exact strict_encode_complete A n root w oc hv
+
+/-- on flat sequences strict encode is exact: it gets past the content model iff the emitted names are
+    a word of the model -/
+theorem encode_exact_flat_sequence (n : Nat) (p : Particle) (h : FlatSeq n p = true) (w : List QN) :
+    encodeSilent (mkArena n p.flatten) n p.pid w = inModel p w := by
+  rw [encodeSilent_eq_verdict, (visitor_exact_flat_sequence n p h w).1]
+
 /-! ### the boundary: the group's own occurrence range
 
 With `[glo, ghi] ≠ [1, 1]` on the group the full statement `verdict = inModel` is FALSE for the
@@ -121,6 +164,7 @@ example : FlatSeq 1 (flatGroup .seq 1 (some 1) []) = true := by decide
 example : verdict (mkArena 5 mSeq.flatten) 5 0 [qa, qa, qb, ⟨"urn:t", "s"⟩, ⟨"urn:t", "h"⟩] = true := by decide +kernel
 example : verdict (mkArena 5 mSeq.flatten) 5 0 [qa, qb] = false := by decide +kernel
 example : InModel mSeq [qa, qa, qa] := (visitor_exact_flat_sequence_lang 5 mSeq (by decide) _).mp (by decide +kernel)
+example : encodeSilent (mkArena 5 mSeq.flatten) 5 0 [qa, qa, qb] = true := by decide +kernel
 -- the fragment excludes what the boundary theorems use
 example : FlatSeq 2 (flatGroup .seq 1 (some 2) [⟨1, [qa], 2, some 3⟩]) = false := by decide
 
